@@ -1348,7 +1348,11 @@ class Process(StateMachine, persistence.Savable, metaclass=ProcessStateMachineMe
                 next_state = self.create_state(process_states.ProcessState.EXCEPTED, *sys.exc_info()[1:])
                 self._set_interrupt_action(None)
 
-            if self._interrupt_action:
+            if self.has_terminated():
+                # The process was failed from outside (``fail`` or a failing scheduled callback) while the step was
+                # in flight. A terminal state is final, so the outcome of the step is discarded.
+                pass
+            elif self._interrupt_action:
                 self._interrupt_action.run(next_state)
             else:
                 # Everything nominal so transition to the next state
